@@ -115,6 +115,7 @@ def main(run: Run):
     thorough = run.tier == "thorough"
     translate(run)
     run.prove("C06", OBLIGATIONS)
+    run.log(f"translated and proved {len(run.discharged)}/{len(OBLIGATIONS)} obligations")
     run.rule = ("(1) random trees (depth 0-3) over the real WeightedTensor API: constructors incl. refused ones, all arithmetic/comparison "
                 "dunders incl. reflected ones, neg/abs/pow, map and the unary-operator factory with fill values, index_put, view/"
                 "unsqueeze_right, expand, then one query among raw/filled/weighted_value/wsum/sum/sum_dim/wsum_dim with dim and but_dim "
@@ -141,6 +142,7 @@ def main(run: Run):
                         "torch kernels are modelled (broadcast, sum, masked_fill, index_put, view, expand), checked by execution only"]
     run.trusted.append("hand-written model coq/theories/Masked/{Weighted,Pipeline}.v tied by exact differential execution (harness/props/c06_api.py; noise rules and put_data_variables: harness/props/c06_pipeline.py; memory phase Masked/Saem.v: harness/props/c06_saem.py)")
     api_tie(run, 50000 if thorough else 3000)
+    run.log("api tie done")
     # each stage on its own: a tie that no longer runs must not stop the search for a failing input on the real pipeline
     for stage, fn in (("std-tie", lambda: SRC.std_tie(run, 6000 if thorough else 600)),
                       ("noise-tie", lambda: P.noise_tie(run, 4000 if thorough else 400)),
@@ -150,6 +152,7 @@ def main(run: Run):
                       ("pipeline-oracle", lambda: P.run_oracle(run, thorough))):
         try:
             fn()
+            run.log(f"{stage} done")
         except Exception as e:  # noqa: BLE001
             import traceback
             run.broken(f"oracle-crashed:{stage}", f"{type(e).__name__}: {e}\n{traceback.format_exc()[-1500:]}", kind="broken-correspondence")
